@@ -197,9 +197,18 @@ SerOnly(S) == {Slice(t) : t \in {x \in S : ElemOk(x)}}
               \cup {G(Slice(t)) : t \in {x \in S : ElemOk(x)}}
               \cup {G(SerIter(t)) : t \in {x \in S : ElemOk(x) /\ IsZeroCopyTrait(x)}}
 
-Types1Quick == Close(LeavesQuick, CfSmall)
-Types1Full  == Close(LeavesFull, CfSmall)
-Types1Small == Close(LeavesSmall, CfSmall)
-Types2Small == Close(Types1Small, CfSmall)
+\* Named universes.  An operator with a parameter, on purpose: TLC evaluates every
+\* zero-arity constant definition at start-up, and the big closures cost minutes.
+TypesOf(name) ==
+  CASE name = "small1" -> Close(LeavesSmall, CfSmall)
+    [] name = "quick1" -> Close(LeavesQuick, CfSmall)
+    [] name = "full1"  -> Close(LeavesFull, CfSmall)
+    [] name = "small2" -> Close(Close(LeavesSmall, CfSmall), CfSmall)
+    [] name = "all"    -> Close(LeavesFull, CfSmall) \cup Close(Close(LeavesSmall, CfSmall), CfSmall)
+    [] name = "tiny"   -> {Vec(ZPad), G(Vec(U32)), Option(StringT), DE, ZEP, Array(3, ZA16)}
+SerOnlyOf(name) ==
+  CASE name \in {"small1", "small2"} -> SerOnly(LeavesSmall)
+    [] name = "quick1" -> SerOnly(LeavesQuick)
+    [] OTHER -> SerOnly(LeavesFull)
 
 =============================================================================
